@@ -13,6 +13,7 @@ import (
 	"path/filepath"
 	"sort"
 	"strconv"
+	"strings"
 	"time"
 
 	"verif/core"
@@ -121,6 +122,9 @@ type c09op struct {
 	Pat    int    `json:"pattern,omitempty"`
 	PSeed  uint64 `json:"pattern_seed,omitempty"`
 	Reuse  int    `json:"buffer,omitempty"` // 0 fresh, 1..3 pool buffer, 4 the buffer last returned by Read
+	// Place says where a fresh buffer lies: 0 an allocation of its own; 1..3 a sub-slice starting 1, 3 or 511
+	// bytes into a larger array (unaligned), 1 and 3 with spare capacity behind it, 2 with none
+	Place int `json:"placement,omitempty"`
 }
 
 type c09hist struct {
@@ -131,6 +135,63 @@ type c09hist struct {
 }
 
 var c09sizes = []uint64{0, 1, 2, 3, 7, 64}
+
+// sizes only the random histories use (a fifth of them)
+var c09moreSizes = []uint64{4, 5, 8, 9, 15, 16, 17, 33, 100, 255, 256, 257, 1000, 4097}
+
+// allocBuf returns a fresh n-byte buffer placed as o.Place says.
+func allocBuf(n, place int) []byte {
+	switch place {
+	case 1:
+		big := make([]byte, n+1+100)
+		return big[1 : 1+n]
+	case 2:
+		big := make([]byte, n+3)
+		return big[3 : 3+n : 3+n]
+	case 3:
+		big := make([]byte, n+511+bs)
+		return big[511 : 511+n]
+	}
+	return make([]byte, n)
+}
+
+var placeNames = []string{"own", "off1+cap", "off3", "off511+cap"}
+
+// readbackAddrs: every block of a small disk; for a large one the touched addresses, their neighbours, both
+// ends and sixteen more.
+func readbackAddrs(size uint64, ops []c09op, salt uint64) []uint64 {
+	var out []uint64
+	if size <= 80 {
+		for a := uint64(0); a < size; a++ {
+			out = append(out, a)
+		}
+		return out
+	}
+	seen := map[uint64]bool{}
+	add := func(a uint64) {
+		if a < size && !seen[a] {
+			seen[a] = true
+			out = append(out, a)
+		}
+	}
+	for _, o := range ops {
+		if o.Kind <= opWrite && o.Addr < size {
+			add(o.Addr - 1)
+			add(o.Addr)
+			add(o.Addr + 1)
+		}
+	}
+	add(0)
+	add(1)
+	add(size - 1)
+	add(size - 2)
+	for k := uint64(1); k <= 16; k++ {
+		add((salt*0x9E3779B97F4A7C15 + k*0xBF58476D1CE4E5B9) % size)
+	}
+	sort.Slice(out, func(i, j int) bool { return out[i] < out[j] })
+	return out
+}
+
 var c09wlens = []int{0, 1, 4095, 4096, 4097, 8192}
 
 func fillPattern(b []byte, pat int, seed uint64) {
@@ -271,6 +332,15 @@ func directedHistories() []c09hist {
 func randomHistory(seed int64, idx int) c09hist {
 	rng := core.NewRng(seed, "c09/h"+strconv.Itoa(idx))
 	size := c09sizes[rng.Intn(len(c09sizes))]
+	if rng.Chance(20) {
+		size = c09moreSizes[rng.Intn(len(c09moreSizes))]
+	}
+	place := func() int {
+		if rng.Chance(65) {
+			return 0
+		}
+		return 1 + rng.Intn(3)
+	}
 	nops := 1 + rng.Intn(200)
 	if rng.Chance(40) {
 		nops = 1 + rng.Intn(20)
@@ -300,7 +370,9 @@ func randomHistory(seed int64, idx int) c09hist {
 			if rng.Chance(15) {
 				l = c09wlens[rng.Intn(len(c09wlens))]
 			}
-			h.Ops = append(h.Ops, mkwrite(a, c, l, rng.Intn(4), rng.U64(), rng.Intn(5)))
+			o := mkwrite(a, c, l, rng.Intn(4), rng.U64(), rng.Intn(5))
+			o.Place = place()
+			h.Ops = append(h.Ops, o)
 		case p < 62:
 			a, c := pickAddr()
 			h.Ops = append(h.Ops, mkop(opRead, a, c))
@@ -309,6 +381,7 @@ func randomHistory(seed int64, idx int) c09hist {
 			o := mkop(opReadTo, a, c)
 			o.Reuse = rng.Intn(5)
 			o.PSeed = rng.U64()
+			o.Place = place()
 			h.Ops = append(h.Ops, o)
 		case p < 97:
 			h.Ops = append(h.Ops, mkop(opSize, 0, ""))
@@ -429,12 +502,19 @@ func reuseName(r int) string {
 	return "reused"
 }
 
+func placeSuffix(o c09op) string {
+	if o.Place == 0 || o.Place >= len(placeNames) {
+		return ""
+	}
+	return "/" + placeNames[o.Place]
+}
+
 func bufClass(o c09op) string {
 	switch o.Kind {
 	case opWrite:
-		return fmt.Sprintf("len%d/%s/%s", o.Len, patNames[o.Pat], reuseName(o.Reuse))
+		return fmt.Sprintf("len%d/%s/%s", o.Len, patNames[o.Pat], reuseName(o.Reuse)) + placeSuffix(o)
 	case opReadTo:
-		return "dirty/" + reuseName(o.Reuse)
+		return "dirty/" + reuseName(o.Reuse) + placeSuffix(o)
 	}
 	return "-"
 }
@@ -497,7 +577,7 @@ func (w *c09result) runHistory(seed int64, h c09hist, dir string, cfgs []c09cfg)
 				"seed": seed, "history_index": h.Index, "directed": h.Directed, "config": c.Name,
 				"disk_size": h.Size, "failing_step": step, "ops_up_to_failure": h.Ops[:min(step+1, len(h.Ops))],
 				"replay": "open a fresh disk of disk_size blocks in the named configuration, apply ops in order " +
-					"(Write buffers = fillPattern(pattern, pattern_seed) of buf_len bytes; every buffer passed or returned is scribbled (b[i] ^= byte(i*29)|0x80) after the call; every successful Read/ReadTo/Write is followed by a probe Read of the same address)",
+					"(Write buffers = fillPattern(pattern, pattern_seed) of buf_len bytes; a fresh buffer with placement 1/2/3 is the sub-slice [1:1+n] / [3:3+n:3+n] / [511:511+n] of a larger array; every buffer passed or returned is scribbled (b[i] ^= byte(i*29)|0x80) after the call; every successful Read/ReadTo/Write is followed by a probe Read of the same address)",
 			}
 			if want != nil || got != nil {
 				off := firstDiff(want, got)
@@ -608,7 +688,7 @@ func (w *c09result) runHistory(seed int64, h c09hist, dir string, cfgs []c09cfg)
 				case o.Reuse == 4 && len(lastRead) == bs:
 					b = lastRead
 				default:
-					b = make([]byte, bs)
+					b = allocBuf(bs, o.Place)
 				}
 				// dirty buffer: every byte differs from the byte the read must deliver
 				fillPattern(b, 3, o.PSeed^0xD1)
@@ -630,7 +710,7 @@ func (w *c09result) runHistory(seed int64, h c09hist, dir string, cfgs []c09cfg)
 				case o.Len == bs && o.Reuse == 4 && len(lastRead) == bs:
 					wbuf = lastRead
 				default:
-					wbuf = make([]byte, o.Len)
+					wbuf = allocBuf(o.Len, o.Place)
 				}
 				fillPattern(wbuf, o.Pat, o.PSeed)
 				p, _ = callPanics(func() { d.write(o.Addr, wbuf) })
@@ -742,7 +822,10 @@ func (w *c09result) runHistory(seed int64, h c09hist, dir string, cfgs []c09cfg)
 		// interference read-back: every block of the implementation against the model
 		curStep = len(h.Ops)
 		if !diverged {
-			for a := uint64(0); a < h.Size && !diverged; a++ {
+			for _, a := range readbackAddrs(h.Size, h.Ops, uint64(h.Index)) {
+				if diverged {
+					break
+				}
 				ok, got, pp := probe(a)
 				w.Counts["readback_blocks_compared"]++
 				if pp {
@@ -788,6 +871,10 @@ func c09Worker(args []string) int {
 	nw, _ := strconv.Atoi(args[2])
 	nrand, _ := strconv.Atoi(args[3])
 	dir, out := args[4], args[5]
+	nfleet := 0
+	if len(args) > 6 {
+		nfleet, _ = strconv.Atoi(args[6])
+	}
 	os.MkdirAll(dir, 0o755)
 	res := &c09result{Worker: wi, Counts: map[string]int64{}, Classes: map[string]int64{}}
 	directed := directedHistories()
@@ -831,6 +918,27 @@ func c09Worker(args []string) int {
 			})
 		}
 	}
+	// fleet layer: several disks alive at once, in the same process as (and after) the
+	// lock-step histories, so that whatever those left behind is part of the state
+	if res.Err == "" && (nfleet > 0 || len(args) > 6) {
+		fleets := c09FleetScenarios(seed, nfleet)
+		for fi := wi; fi < len(fleets); fi += nw {
+			os.WriteFile(out+".cur", []byte("fleet:"+strconv.Itoa(fi)), 0o644)
+			nv := len(res.Violations)
+			res.runFleet(seed, fleets[fi], dir)
+			if res.Err != "" {
+				break
+			}
+			kept := res.Violations[:nv]
+			for _, v := range res.Violations[nv:] {
+				if !seenSig[v.Sig] {
+					seenSig[v.Sig] = true
+					kept = append(kept, v)
+				}
+			}
+			res.Violations = kept
+		}
+	}
 	b, _ := json.Marshal(res)
 	if err := os.WriteFile(out, b, 0o644); err != nil {
 		fmt.Fprintln(os.Stderr, err)
@@ -847,7 +955,9 @@ func runC09(r *core.Run) (bool, string) {
 	r.SetRule("evaluations = API calls (history operations, aliasing/refusal probes, end-of-history read-back reads) whose result was compared with the array model; " +
 		"distinct_nontrivial = distinct histories by hash of (disk size, operation list); call_classes lists the distinct (operation, address class, in/out of range, buffer class, outcome) tuples that occurred. " +
 		"Histories: a seed-independent directed layer (fresh-disk scans, fill/read-back, special addresses, every write length, buffer re-use with barriers, for each disk size in {0,1,2,3,7,64}) plus seeded random histories of 1–200 operations; " +
+		"a fifth of the random histories use further sizes (4…4097; read-back of disks above 80 blocks covers touched addresses, their neighbours, both ends and 16 more) and a third of the fresh buffers are unaligned sub-slices of larger arrays; " +
 		"each history is applied to all eight configurations {disk,async_disk}×{Mem,File}×{methods,global wrappers} and every result is compared with the model. " +
+		"Fleet layer (fleet_* keys), in the same worker processes after the lock-step histories: scenarios keeping up to six disks of different kinds and sizes alive at once, operations interleaved through methods and (for the disk last given to disk.Init) the global wrappers, disks closed and new ones created in between (smaller/equal/larger in-memory disks, file disks on a removed image path used before), each disk compared with its own model, the same address read on every other disk after each write; plus sparse file-backed disks of 2^19+1, 2^20+3 and 2^31+1 blocks (byte offsets beyond 2^31, 2^32, 2^43) with addresses around those boundaries. " +
 		"Refusal layer (refusal_* keys): per configuration, in a child process with a single goroutine and no timers, sequences 'refused operation(s) (every out-of-range address class under Read/ReadTo/Write, every wrong write-buffer length) then Size, Barrier, Read, ReadTo, Write+read-back on the SAME object', refusals in pairs, alternating with accepted calls, and seeded random mixtures, each call announced before it is made and compared with the model; " +
 		"a call that never returns is decided by the Go runtime's own 'all goroutines are asleep - deadlock!' report (the parent's wall-clock watchdog only yields inconclusive)")
 	r.Assume("async_disk has no package-level wrappers; its 'global' configuration passes the async_disk-constructed disk to disk.Init and uses package disk's wrappers (ReadTo, which has no wrapper, through disk.Get())")
@@ -860,13 +970,14 @@ func runC09(r *core.Run) (bool, string) {
 	}
 	nw := 16
 	nrand := r.Pick(1000, 20000)
+	nfleet := r.Pick(320, 4000)
 	results := make([]*c09result, nw)
 	deadlocked := make([]*c09viol, nw)
 	core.Parallel(nw, nw, func(i int) {
 		dir := filepath.Join(r.Scratch, fmt.Sprintf("c09w%d", i))
 		out := filepath.Join(r.Scratch, fmt.Sprintf("c09w%d.json", i))
 		res := core.Exec(r.Scratch, nil, 25*time.Minute, "", self, "child", "c09-worker",
-			strconv.FormatInt(r.Seed, 10), strconv.Itoa(i), strconv.Itoa(nw), strconv.Itoa(nrand), dir, out)
+			strconv.FormatInt(r.Seed, 10), strconv.Itoa(i), strconv.Itoa(nw), strconv.Itoa(nrand), dir, out, strconv.Itoa(nfleet))
 		if res.TimedOut {
 			r.Inconclusive("worker-watchdog")
 			return
@@ -876,6 +987,18 @@ func runC09(r *core.Run) (bool, string) {
 			// the worker has one goroutine (the one calling the library) and arms no timer: the
 			// runtime's deadlock report means a library call of the history can never return
 			cur, _ := os.ReadFile(out + ".cur")
+			if fs, ok := strings.CutPrefix(string(cur), "fleet:"); ok {
+				fi, _ := strconv.Atoi(fs)
+				var scn interface{}
+				if fl := c09FleetScenarios(r.Seed, nfleet); fi < len(fl) {
+					scn = fl[fi]
+				}
+				frame := c09DeadlockFrame(res.Stderr)
+				deadlocked[i] = &c09viol{Sig: "fleet-call-never-returns-" + frame,
+					What:   fmt.Sprintf("while executing fleet scenario %d a call never returned: the Go runtime reports '%s' with the only goroutine of the worker blocked in %s", fi, goDeadlockMsg, frame),
+					Detail: map[string]interface{}{"seed": r.Seed, "fleet_index": fi, "scenario": scn, "worker_stderr": tail09(res.Stderr, 4000)}}
+				return
+			}
 			idx, _ := strconv.Atoi(string(cur))
 			var hist interface{}
 			if d := directedHistories(); idx < len(d) {
@@ -923,6 +1046,12 @@ func runC09(r *core.Run) (bool, string) {
 		}
 		r.Eval(int(wr.Evals))
 		for k, v := range wr.Counts {
+			if strings.Contains(k, "_max_") { // a maximum, not a tally
+				if v > r.GetCount(k) {
+					r.Count(k, v-r.GetCount(k))
+				}
+				continue
+			}
 			r.Count(k, v)
 		}
 		for k, v := range wr.Classes {
@@ -957,6 +1086,9 @@ func runC09(r *core.Run) (bool, string) {
 	if r.GetCount("panics_expected_and_compared") < 100 || r.GetCount("aliasing_probes_write_buffer") < 500 ||
 		r.GetCount("aliasing_probes_read_buffer") < 500 || r.GetCount("readback_blocks_compared") < 500 {
 		return false, "too few refusals / aliasing probes / read-back blocks observed"
+	}
+	if r.GetCount("fleet_calls_with_several_disks_alive") < 2000 || r.GetCount("fleet_cross_disk_probes") < 500 || r.GetCount("fleet_calls_via_global") < 300 {
+		return false, "fleet layer: too few calls with several disks alive / cross-disk probes / calls through the global wrappers"
 	}
 	return r.Evals() >= 20000, "too few compared calls"
 }
